@@ -52,6 +52,15 @@ from .props_stop import STOP_RUN as _STOP_RUN  # noqa: E402
 HSIM_RUN = {"harness": "hstop", "driver": "stopdrv", "corpus": "stopsim-c05", "fields": _STOP_RUN["fields"], "custom": _retry_run,
             "gen_args": ["-tier", "c05"], "quick": {"n": 3, "shards": 6}, "thorough": {"n": 10, "shards": 12}}
 
+# C05 at nbhttp's submission site for requests (seed C05-f): he2e's upgrade-behind-slow histories — a request with an
+# Upgrade header pipelined right behind a request whose handler is still sleeping, on real nbhttp engines over loopback
+# (nb / mx / bl x plain / TLS x lt|et|os|eta|osa, raw and nbhttp-client pipelining) — ServerProcessor.OnComplete must hand
+# every request to the connection's job queue: direct oracles c05-overlap (two handlers of one connection at once, from
+# the server-side in-flight counter) and c05-fifo (handler entry order = request order); `he2e gen -tier c05`, corpus
+# e2e-c05; harness, driver (pipedrv: C10's Pipeline model predicts the answers) and retries belong to the e2e family.
+E2EUP_RUN = {"harness": "he2e", "driver": "pipedrv", "corpus": "e2e-c05", "fields": None,
+             "gen_args": ["-tier", "c05"], "quick": {"n": 10, "shards": 4, "timeout": 600}, "thorough": {"n": 30, "shards": 12, "timeout": 1200}}
+
 PROPS = {
     "C05": {
         "manifest": {
@@ -74,10 +83,13 @@ PROPS = {
                     "the oracle c05-overlap; its model side is C14's WsCb.execOf table (those paths use the same per-conn ExecQ); a third run "
                     "(hstop -tier c05, stop family, seed C05-e) holds a request handler of a conn on a real nbhttp engine while Stop/Shutdown "
                     "closes that conn: the close handling must go through MustExecute and wait its turn (oracles c05-overlap, "
-                    "c05-close-order; model side: C18's stop model, no ExecQ theorem is instantiated there)",
+                    "c05-close-order; model side: C18's stop model, no ExecQ theorem is instantiated there); a fourth run "
+                    "(he2e -tier c05, e2e family, seed C05-f) pipelines requests that carry an Upgrade header behind a request whose handler "
+                    "is still running, on real nbhttp engines: every request must go through the connection's queue (oracles c05-overlap, "
+                    "c05-fifo; model side: C10's Pipeline, which takes the queue as given — no ExecQ theorem is instantiated there either)",
             "technique": "Lean 4 proof (inductive invariant of a transition system) + schedule replay / differential correspondence"},
-        "lean": ["NbioVerif.Properties.C05"], "drivers": ["jobqdrv", "wscbdrv", "stopdrv"], "harness": ["hjobq", "hwscb", "hstop"],
-        "runs": [JOBQ_RUN, WSUP_RUN, HSIM_RUN],
+        "lean": ["NbioVerif.Properties.C05"], "drivers": ["jobqdrv", "wscbdrv", "stopdrv", "pipedrv"], "harness": ["hjobq", "hwscb", "hstop", "he2e"],
+        "runs": [JOBQ_RUN, WSUP_RUN, HSIM_RUN, E2EUP_RUN],
         "cs": [cs_conc.cs_conn_submit, cs_conc.cs_conn_drainer, cs_conc.cs_conn_close_flip, cs_conc.cs_nbhttp_close_routed],
         "search": search_c05,
         "oracles": ["c05-"],
